@@ -4,8 +4,14 @@ import HumphreyModel.Spec.WsApp
 
 /-!
 Replay for C12. A case is `app|real, scenario` and the implementation's output is
-`summary|h4log|execlog|frames|consumed|closed|heartbeat` (see `harness/src/c12.rs`; an output without the last
-field or the last two is accepted). The heartbeat field is the timeline of the run's clock readings as bounded by
+`summary|h4log|execlog|frames|consumed|closed|heartbeat|issued` (see `harness/src/c12.rs`; an output without the
+last field, the last two or the last three is accepted). The `issued` field is what the issuers of the server-side
+sends wrote down (every handler kind through the `AsyncStream` it is given or through an `AsyncSender`, the
+harness through an `AsyncSender`): each call is put through the model of the handle (`Handle.send`,
+`Handle.broadcast`, `senderSend`, `senderBroadcast`: queued or panicked - `REJECT-ISSUE@k` when the call went
+otherwise), and the spec demands that every send whose call returned before an iteration started was taken from the
+channel (`issuedAreFlushed`), nothing more often than issued (`flushedWereIssued`); to whom a taken message goes
+is `UnicastOk` / `BroadcastOk` with the clients connected at that flush, and the sockets' frames must be those sends. The heartbeat field is the timeline of the run's clock readings as bounded by
 the harness (signs of life of every client, polls survived, timeouts, ping decisions); with the scenario's
 `h=<interval>.<timeout>` it is judged by `liveClientKept`, `silentClientTimedOut` and `pingCadenceOk` of
 `Spec/WsApp.lean` - the model cannot see these: it takes the clock readings as inputs. The scenario names the handlers the app was built with (`hs=<subset of cmd>`, `-` for none; absent =
@@ -341,8 +347,85 @@ def parseHeartbeat (scn : String) : Option (Nat × Nat) :=
     | _ => none
   | none => none
 
+/-! ### The sends as their issuers saw them (8th field of the output) -/
+
+/-- One entry of the `issued` field: the handle the call went through, what was handed over, how the call ended. -/
+structure IssueRec where
+  /-- `some h`: through the `AsyncStream` given to a handler; `none`: through an `AsyncSender` -/
+  handle : Option Handle
+  issue : Issue
+  msg : Msg
+  /-- the addressee of a unicast -/
+  target : Option Addr
+  panicked : Bool
+
+def outTok : Out → String
+  | .unicast a m => s!"u{a}:{(if m.text then "T" else "B") ++ hex m.payload}"
+  | .broadcast m _ => s!"b{(if m.text then "T" else "B") ++ hex m.payload}"
+
+def parseIssue (t : String) : Option IssueRec :=
+  match t.splitOn ":" with
+  | k :: who :: op =>
+    let stamp : Option (Option Nat) := if k == "-" then some none else k.toNat?.map some
+    let handle : Option (Option Handle) := match who.toList with
+      | ['e'] => some none
+      | c :: r =>
+        (String.ofList r).toNat?.bind fun a =>
+          if c == 'c' || c == 'm' then some (some { addr := a, connected := true })
+          else if c == 'd' then some (some { addr := a, connected := false })
+          else if c == 'C' || c == 'M' || c == 'D' then some none
+          else none
+      | [] => none
+    match stamp, handle, op with
+    | some stamp, some handle, [u, m] =>
+      match u.toList with
+      | c :: r =>
+        if c == 'u' || c == 'U' then
+          match (String.ofList r).toNat?, parseMsg m with
+          | some a, some m =>
+            -- through a disconnected stream, to the client that has gone
+            let toGone := match handle with
+              | some hd => !hd.connected && hd.addr == a
+              | none => false
+            some { handle := handle, issue := { stamp := stamp, out := .unicast a m, toGone := toGone }, msg := m,
+                   target := some a, panicked := c == 'U' }
+          | _, _ => none
+        else none
+      | [] => none
+    | some stamp, some handle, [b] =>
+      match b.toList with
+      | c :: r =>
+        if c == 'b' || c == 'B' then
+          (parseMsg (String.ofList r)).map fun m =>
+            { handle := handle, issue := { stamp := stamp, out := .broadcast m [] }, msg := m, target := none,
+              panicked := c == 'B' }
+        else none
+      | [] => none
+    | _, _, _ => none
+  | _ => none
+
+def parseIssued (s : String) : Option (List IssueRec) :=
+  ((s.splitOn " ").filter (!·.isEmpty)).mapM parseIssue
+
+/-- The model of the call: what it puts into the channel, or a panic. -/
+def IssueRec.model (r : IssueRec) : Enq :=
+  match r.handle, r.target with
+  | some hd, some _ => hd.send r.msg
+  | some hd, none => hd.broadcast r.msg
+  | none, some a => senderSend a r.msg
+  | none, none => senderBroadcast r.msg
+
+/-- What the issuer saw: the call returned (the message it handed over is then in the channel) or panicked. -/
+def IssueRec.seen (r : IssueRec) : Enq := if r.panicked then .panic else .queued [r.issue.out]
+
+/-- The first call that went otherwise than the model's (a unicast through a stream goes to that stream's client).
+How a call ended that had not returned when the logs were collected (no stamp) is not known. -/
+def issueMismatch (rs : List IssueRec) : Option String :=
+  ((rs.zipIdx).find? fun (r, _) => r.issue.stamp.isSome && r.model != r.seen).map fun (r, k) =>
+    s!"REJECT-ISSUE@{k}:{match r.model with | .panic => "PANIC" | .queued o => " ".intercalate (o.map outTok)}"
+
 def judge (isReal : Bool) (scn : String) (p : Parsed) (summary exec frames consumed : String)
-    (closed hb : Option String) : Option Bool × String :=
+    (closed hb : Option String) (issued : Option (List IssueRec)) : Option Bool × String :=
   let h := parseHandlers scn
   let its := p.iters
   let inputs : List IterInput := its.map (·.input) ++ (if p.sawShutdown then [{ shutdown := true }] else [])
@@ -431,10 +514,22 @@ def judge (isReal : Bool) (scn : String) (p : Parsed) (summary exec frames consu
         [ ("no_heartbeat_no_ping", T.all (!isPing ·)),
           ("no_heartbeat_no_timeout", its.all fun it => !it.input.willPing && it.input.polls.all (!·.timedOut)) ]
       | _, _, _ => []
+    -- whoever issued a send: taken from the channel once its call had returned before an iteration started
+    let issueChecks : List (String × Bool) :=
+      match issued with
+      | none => []
+      | some rs =>
+        let iss := rs.filter (!·.panicked) |>.map (·.issue)
+        let n := (its.map fun it => it.repeats + 1).sum
+        let taken := takenOut inputs
+        let due := ((iss.filter (·.due n)).map fun i => normOut i.out).eraseDups
+        (due.map fun o => (s!"issued_are_flushed:{outTok o}", issuedOutFlushed n iss taken o)) ++
+        [ ("issued_are_flushed", issuedAreFlushed n iss taken),
+          ("flushed_were_issued", flushedWereIssued iss taken) ]
     let checks : List (String × Bool) :=
       [ ("wedged", !summary.startsWith "WEDGED" && summary.startsWith "returned"),
         ("shutdown_returns", !p.sawShutdown || (p.exited && decide (ExitsLast T))) ] ++
-      perClient ++ heartbeatChecks ++ flushes ++ socketChecks ++
+      perClient ++ heartbeatChecks ++ flushes ++ issueChecks ++ socketChecks ++
       [ ("executed_eq_dispatched", sameMultiset D ex),
         ("one_thread_execution_order", threads != 1 || ex == D) ] ++ scriptChecks
     match firstFail checks with
@@ -444,15 +539,22 @@ def judge (isReal : Bool) (scn : String) (p : Parsed) (summary exec frames consu
 def dispatch (fn : String) (args : List String) (impl : String) : Option Verdict :=
   match fn, args with
   | "app", [scn] | "real", [scn] =>
-    let fields : Option (String × String × String × String × String × Option String × Option String) :=
+    let fields : Option (String × String × String × String × String × Option String × Option String ×
+        Option String) :=
       match impl.splitOn "|" with
-      | [summary, log, exec, frames, consumed] => some (summary, log, exec, frames, consumed, none, none)
-      | [summary, log, exec, frames, consumed, closed] => some (summary, log, exec, frames, consumed, some closed, none)
+      | [summary, log, exec, frames, consumed] => some (summary, log, exec, frames, consumed, none, none, none)
+      | [summary, log, exec, frames, consumed, closed] =>
+        some (summary, log, exec, frames, consumed, some closed, none, none)
       | [summary, log, exec, frames, consumed, closed, hb] =>
-        some (summary, log, exec, frames, consumed, some closed, some hb)
+        some (summary, log, exec, frames, consumed, some closed, some hb, none)
+      | [summary, log, exec, frames, consumed, closed, hb, issued] =>
+        some (summary, log, exec, frames, consumed, some closed, some hb, some issued)
       | _ => none
     match fields with
-    | some (summary, log, exec, frames, consumed, closed, hb) =>
+    | some (summary, log, exec, frames, consumed, closed, hb, issued) =>
+      match (match issued with | some s => (parseIssued s).map some | none => some none) with
+      | none => some { model := "BADISSUED", spec := some false, reason := "bad-issued-field" }
+      | some issuedRecs =>
       let h := parseHandlers scn
       let toks := (log.splitOn " ").filter (!·.isEmpty)
       match parseLog toks none {} with
@@ -460,9 +562,9 @@ def dispatch (fn : String) (args : List String) (impl : String) : Option Verdict
       | some p =>
         let r := replayAll h p.iters
         let tail := s!"|{log}|{exec}|{frames}|{consumed}" ++ (match closed with | some c => s!"|{c}" | none => "") ++
-          (match hb with | some c => s!"|{c}" | none => "")
-        let (spec, reason) := judge (fn == "real") scn p summary exec frames consumed closed hb
-        match r.error with
+          (match hb with | some c => s!"|{c}" | none => "") ++ (match issued with | some c => s!"|{c}" | none => "")
+        let (spec, reason) := judge (fn == "real") scn p summary exec frames consumed closed hb issuedRecs
+        match r.error.orElse (fun _ => issuedRecs.bind issueMismatch) with
         | some e => some { model := e, spec := spec, reason := reason }
         | none =>
           let T := if p.sawShutdown then (runLoop h r.state [{ shutdown := true }]).2 else []
